@@ -194,7 +194,15 @@ pub fn loop_inputs(def: &Def, alpha: &[Sym], max_n: usize) -> Vec<Vec<u8>> {
                     t.extend_from_slice(e);
                     out.push(t.clone());
                     t.extend_from_slice(x);
-                    out.push(t);
+                    out.push(t.clone());
+                    // a long tail after the run: the run ends inside a chunk that is completely
+                    // inside the input (chunked reads of 8 / 16 bytes)
+                    if n % 3 == 2 {
+                        for _ in 0..17 {
+                            t.extend_from_slice(x);
+                        }
+                        out.push(t);
+                    }
                 }
             }
         }
